@@ -77,7 +77,58 @@ def run_probe(spec):
     raise ValueError(kind)
 
 
+def serve():
+    """Fresh-state server: import everything the probes need, make no library
+    call, then answer each spec (one JSON line) from a forked child - the
+    child's library state is that of an interpreter which has only imported
+    the modules, so every probe is the first call of its process."""
+    import os
+    import importlib
+    for mod in ("vf.props.c01", "vf.props.c02", "vf.props.c03",
+                "vf.props.c04", "vf.props.c08", "vf.props.c17",
+                "rig.place_and_route", "rig.routing_table", "rig.bitfield",
+                "rig.machine_control"):
+        importlib.import_module(mod)
+    out = sys.stdout
+    out.write("PROBE-SERVER-READY\n")
+    out.flush()
+    for line in sys.stdin:
+        line = line.strip()
+        if not line:
+            continue
+        r, w = os.pipe()
+        pid = os.fork()
+        if pid == 0:
+            code = 0
+            try:
+                os.close(r)
+                res = run_probe(json.loads(line))
+                text = "PROBE-RESULT:" + json.dumps(res, sort_keys=True,
+                                                    default=repr)
+            except BaseException as e:      # reported to the caller
+                import traceback
+                text = "PROBE-ERROR:" + json.dumps(
+                    traceback.format_exc()[-1500:])
+                code = 1
+            try:
+                with os.fdopen(w, "w") as f:
+                    f.write(text + "\n")
+            finally:
+                os._exit(code)
+        os.close(w)
+        with os.fdopen(r) as f:
+            text = f.read()
+        os.waitpid(pid, 0)
+        if not text.startswith("PROBE-"):
+            text = "PROBE-ERROR:" + json.dumps("child died without a result")
+        out.write(text.strip().splitlines()[-1] + "\n")
+        out.flush()
+
+
 if __name__ == "__main__":
+    if sys.argv[1:] == ["--serve"]:
+        serve()
+        sys.exit(0)
     spec = json.load(sys.stdin)
     out = run_probe(spec)
     sys.stdout.write("PROBE-RESULT:" + json.dumps(out, sort_keys=True,
